@@ -556,7 +556,7 @@ class Interp:
         if isinstance(rc, ClassInfo) and a == head:
             if not (isinstance(value, Obj) and rc in self.p.mro(value.cls)):
                 raise PyRaise("ValidationError", node, f"{cls.name}.{fname}: an instance of {rc.name} is required, got {self.tname(value)}")
-            return value
+            return self._revalidate_instance(value, cls, fname, node)
         if "np.ndarray" in a and "Number" in a:      # Optional[Union[np.ndarray, Number]]
             if value is None or self.isinstance_(value, (NDARRAY, NUMBER)):
                 return value
@@ -566,6 +566,23 @@ class Interp:
             if isinstance(rc, ClassInfo) and value is not None:
                 if not (isinstance(value, Obj) and rc in self.p.mro(value.cls)):
                     raise PyRaise("ValidationError", node, f"{cls.name}.{fname}: an instance of {rc.name} is required")
+                return self._revalidate_instance(value, cls, fname, node)
+        return value
+
+    def _revalidate_instance(self, value, cls, fname, node):
+        """pydantic v2 (revalidate_instances='never'): a model INSTANCE handed to a model-typed field keeps its fields unvalidated, but the
+        after-validators of its class run again on it (a `model_validator(mode="after")` wraps the model schema); field validators do not"""
+        if not (isinstance(value, Obj) and value.cls.is_pydantic):
+            return value
+        for v in self.p.validators(value.cls):
+            try:
+                r = self.call_fn(v, [value], {})
+            except PyRaise as e:
+                if e.isa("ValueError") or e.isa("AssertionError"):
+                    raise PyRaise("ValidationError", node, f"{cls.name}.{fname}: {e.msg}", where=e.where)
+                raise
+            if r is not value and r is not None and isinstance(r, Obj):
+                value = r
         return value
 
     def tname(self, v):
@@ -1490,6 +1507,8 @@ class Interp:
             return lambda dt: Opaque("finfo")
         if name == "squeeze":
             return lambda a, axis=None: I.arr_attr(a, "squeeze", None)(axis)
+        if name == "resize":
+            return lambda a, new_shape: NP.resize(a, I.as_shape(new_shape))
         cmp_ufuncs = {"greater": ast.Gt, "greater_equal": ast.GtE, "less": ast.Lt, "less_equal": ast.LtE, "equal": ast.Eq, "not_equal": ast.NotEq}
         if name in cmp_ufuncs:
             def cmp_ufunc(a, b, _op=cmp_ufuncs[name]):
